@@ -97,6 +97,28 @@ package tree
 //@           (forall i int :: {elements[i]} 0 <= i && i < len(elements) ==>
 //@               elements[i] != nil && elements[i].Expression != nil && elements[i].Expression.Value != nil)
 //
+// rearrange (called by the listener when a command statement is complete) turns the runs of text between the inline
+// expressions into words; it builds a new array (the array it reads is not written), keeps every inline-expression element,
+// by identity, and every element of the result carries an expression (C17).
+//@ func (cs *CommandStatement) rearrange()
+//@   requires cs != nil && (forall i int :: {cs.Elements[i]} 0 <= i && i < len(cs.Elements) ==> cs.Elements[i] != nil &&
+//@               (cs.Elements[i].text == "" ==> cs.Elements[i].Expression != nil))
+//@   modifies cs.Elements
+//@   ensures "new-array": arrayOf(cs.Elements) == 0 || fresh(cs.Elements)
+//@   ensures "elements-carry-expressions": forall j int :: {cs.Elements[j]} 0 <= j && j < len(cs.Elements) ==> cs.Elements[j] != nil && cs.Elements[j].Expression != nil
+//@   ghost after call append#0 {
+//@       assert "kept-0": forall j int :: {callres[j]} 0 <= j && j < len(arrangedElements) ==> callres[j] == before(arrangedElements[j])
+//@       assert "words-0": forall j int :: {callres[j]} len(arrangedElements) <= j && j < len(callres) ==> callres[j] != nil && callres[j].Expression != nil
+//@   }
+//@   ghost after call append#1 {
+//@       assert "kept-1": forall j int :: {callres[j]} 0 <= j && j < len(arrangedElements) ==> callres[j] == before(arrangedElements[j])
+//@       assert "expression-1": len(callres) == len(arrangedElements) + 1 && callres[len(arrangedElements)] == element
+//@   }
+//@   loop 0: invariant (arrayOf(arrangedElements) == 0 || fresh(arrangedElements)) && 0 <= rangeindex + 1 &&
+//@           (forall j int :: {arrangedElements[j]} 0 <= j && j < len(arrangedElements) ==> arrangedElements[j] != nil && arrangedElements[j].Expression != nil)
+//@   loop 0: invariant "input-untouched": forall i int :: {cs.Elements[i]} 0 <= i && i < len(cs.Elements) ==> 
+//@               cs.Elements[i] != nil && (cs.Elements[i].text == "" ==> cs.Elements[i].Expression != nil)
+//
 // ---- creator.go: loading (C01, C05, C08) ---------------------------------------------------------------------
 //
 // Cparse (assumed; bounded stand-in B-parse / B-load): FromReader is the ANTLR lexer and parser plus
